@@ -275,6 +275,11 @@ def _sweep_lines(rnd):
     return out
 
 
+def _fill_build(u):
+    return {"lat1": -90.0 + 180.0 * u[0], "lon1": -180.0 + 360.0 * u[1], "lat2": -90.0 + 180.0 * u[2], "lon2": -180.0 + 360.0 * u[3],
+            "ell": S.u_ellipsoid(u[4], u[5], 280.0, 320.0), "pair": "fill", "defaults": False, "num": "float"}
+
+
 SUBCHECKS = [
     SubCheck("arrival_and_reverse_azimuth", check_arrival, strategy=pairs(), nontrivial=_nt, classes=_classes,
              quick=3000, thorough=300000, shards_quick=4, shards_thorough=16,
@@ -292,4 +297,9 @@ SUBCHECKS = [
              shards_quick=12, shards_thorough=16,
              rule="stratified sweeps: the second point along a meridian and around a parallel, the first along its meridian (8 000 / 160 000 "
                   "lattice points per line, 5 lines, seeded), judged like arrival_and_reverse_azimuth"),
+    SubCheck("quasi_random_fill", check_arrival, enumerate=S.fill(515, 6, _fill_build, 40000, 800000), nontrivial=_nt, classes=_classes,
+             shards_quick=12, shards_thorough=16,
+             rule="low-discrepancy fill of both points (latitude, longitude uniform) x ellipsoid: 40 000 / 800 000 pairs (beyond 178 deg discarded)"),
+    SubCheck("swap_fill", check_swap, enumerate=S.fill(516, 6, _fill_build, 20000, 400000), nontrivial=_nt, classes=_classes,
+             shards_quick=8, shards_thorough=16, rule="the same fill (another seeded point set) through the swap symmetry"),
 ]
